@@ -49,6 +49,39 @@ AMBIENT_MODULES = {'random', 'time', 'os', 'secrets', 'sys', 'datetime', 'uuid',
 AMBIENT_BUILTINS = {'id', 'hash', 'input', 'open', 'globals', 'vars', 'exec', 'eval', 'setattr', 'getattr', 'delattr', 'set'}
 
 
+def lower_returns(stmts):
+    """[.., if c: A; return x, rest.., return y]  ->  [.., if c: A; __ret = x  else: rest..; __ret = y]
+    (every path must end in a return that is the last statement of its block); None when the body is not of that shape."""
+    def has_ret(b):
+        return any(isinstance(n, ast.Return) for x in b for n in ast.walk(x))
+
+    def conv(block):
+        block = list(block)
+        for k, st in enumerate(block):
+            if not has_ret([st]):
+                continue
+            if isinstance(st, ast.Return):
+                if k != len(block) - 1:
+                    return None
+                asg = ast.Assign(targets=[ast.Name(id='__ret', ctx=ast.Store())], value=st.value if st.value is not None else ast.Constant(value=None))
+                ast.copy_location(asg, st)
+                ast.fix_missing_locations(asg)
+                return block[:k] + [asg]
+            if isinstance(st, ast.If):
+                rest = block[k + 1:]
+                nb = conv(list(st.body)) if has_ret(st.body) else conv(list(st.body) + rest)
+                no = conv(list(st.orelse)) if has_ret(st.orelse) else conv(list(st.orelse) + rest)
+                if nb is None or no is None:
+                    return None
+                new = ast.If(test=st.test, body=nb or [ast.Pass()], orelse=no)
+                ast.copy_location(new, st)
+                ast.fix_missing_locations(new)
+                return block[:k] + [new]
+            return None
+        return None
+    return conv(stmts)
+
+
 class Tr:
     def __init__(self, repo, clsname, modname):
         self.repo = repo
@@ -384,9 +417,38 @@ class Tr:
         self.err(node, 'unsupported call of %r' % fn)
 
     # -- statements
-    def block(self, stmts, env):
+    def block(self, stmts, env, tail=False):
+        """`tail`: the block is in tail position of a loop body, where `continue` (as the last statement of a branch) is
+        lowered to structured control flow: the statements after an `if` run only on the paths that do not continue."""
+        stmts = list(stmts)
         out = []
-        for s in stmts:
+        for k, s in enumerate(stmts):
+            last = k == len(stmts) - 1
+            if tail and isinstance(s, ast.Continue):
+                if not last:
+                    self.err(s, 'statements after continue')
+                break
+            if tail and isinstance(s, ast.If):
+                def has_c(b):
+                    return any(isinstance(n, ast.Continue) for x in b for n in ast.walk(x))
+
+                def ends_c(b):
+                    return bool(b) and isinstance(b[-1], ast.Continue) and not has_c(b[:-1])
+                if has_c(s.body) or has_c(s.orelse):
+                    rest = stmts[k + 1:]
+                    for b in (s.body, s.orelse):
+                        if has_c(b) and not (ends_c(b) or last):
+                            self.err(s, 'continue that is not the last statement of a branch of an if directly in the loop body')
+                    nb = list(s.body[:-1] if ends_c(s.body) else list(s.body) + rest)
+                    no = list(s.orelse[:-1] if ends_c(s.orelse) else list(s.orelse) + rest)
+                    new = ast.If(test=s.test, body=nb or [ast.Pass()], orelse=no)
+                    ast.copy_location(new, s)
+                    ast.fix_missing_locations(new)
+                    out.extend(self.if_stmt(new, env, tail=True))
+                    return out
+                if last:
+                    out.extend(self.if_stmt(s, env, tail=True))
+                    continue
             out.extend(self.stmt(s, env))
         return out
 
@@ -535,6 +597,15 @@ class Tr:
         if stmts and isinstance(stmts[-1], ast.Return):
             last_ret = stmts[-1]
             stmts = stmts[:-1]
+        # early returns `if c: A; return x` followed by the rest of the body: lowered to if/else on a result variable
+        lowered = lower_returns(body) if any(isinstance(n, ast.Return) for st in stmts for n in ast.walk(st)) else None
+        if lowered is not None:
+            for st in lowered:
+                out.extend(self.stmt(st, env2))
+            ret = env2.get('__ret') or NUM()
+            self.depth -= 1
+            self.curfile, self.cursrc = save
+            return out, ret
         # returns are only supported as the last statement, or as `if c: return a` chains on numeric values
         for st in stmts:
             if any(isinstance(n, ast.Return) for n in ast.walk(st)):
@@ -865,7 +936,7 @@ class Tr:
         self.ev_num(node, env)
         return ('Opaque',)
 
-    def if_stmt(self, s, env):
+    def if_stmt(self, s, env, tail=False):
         # hook idiom
         t = s.test
         if isinstance(t, ast.Name) and env.get(t.id) is not None and env[t.id].kind == 'hook':
@@ -875,8 +946,8 @@ class Tr:
         c = self.cond(t, env)
         pre = self.flush(s, [])
         env1, env2 = dict(env), dict(env)
-        b1 = self.block(s.body, env1)
-        b2 = self.block(s.orelse, env2)
+        b1 = self.block(s.body, env1, tail)
+        b2 = self.block(s.orelse, env2, tail)
         # merge environments conservatively: names must agree in kind
         for k in set(env1) | set(env2):
             a, b = env1.get(k), env2.get(k)
@@ -911,7 +982,7 @@ class Tr:
                     if not isinstance(tgt, ast.Name):
                         self.err(s, 'main loop target')
                     env2[tgt.id] = NUM()
-                    body = self.block(s.body, env2)
+                    body = self.block(s.body, env2, True)
                     env.update({k: v for k, v in env2.items() if k in env})
                     return pre + [self.at(s, ('Repeat', seq(body)))]
                 if not isinstance(tgt, ast.Name):
@@ -920,10 +991,10 @@ class Tr:
                 if used_as_index(s.body, tgt.id):
                     reg = self.newidx(tgt.id)
                     env2[tgt.id] = SV('idx', reg=reg)
-                    body = [('ChooseIdx', reg)] + self.block(s.body, env2)
+                    body = [('ChooseIdx', reg)] + self.block(s.body, env2, True)
                 else:
                     env2[tgt.id] = NUM()
-                    body = self.block(s.body, env2)
+                    body = self.block(s.body, env2, True)
                 if not body:
                     return pre
                 return pre + [self.at(s, ('RepeatAny', seq(body)))]
@@ -938,7 +1009,7 @@ class Tr:
                         for n in ast.walk(tgt):
                             if isinstance(n, ast.Name):
                                 env2[n.id] = NUM()
-                        body = self.block(s.body, env2)
+                        body = self.block(s.body, env2, True)
                         pre = self.flush(s, [])
                         return pre + ([self.at(s, ('RepeatAny', seq(body)))] if body else [])
                     return self.slot_loop(s, env, kinds, tgt.elts[1], ixname)
@@ -948,7 +1019,7 @@ class Tr:
                     for n in ast.walk(tgt):
                         if isinstance(n, ast.Name):
                             env2[n.id] = NUM()
-                    body = self.block(s.body, env2)
+                    body = self.block(s.body, env2, True)
                     pre = self.flush(s, [])
                     return pre + ([self.at(s, ('RepeatAny', seq(body)))] if body else [])
                 self.err(s, 'enumerate over %r' % inner)
@@ -958,7 +1029,7 @@ class Tr:
                     for n in ast.walk(tgt):
                         if isinstance(n, ast.Name):
                             env2[n.id] = NUM()
-                    body = self.block(s.body, env2)
+                    body = self.block(s.body, env2, True)
                     pre = self.flush(s, [])
                     return pre + ([self.at(s, ('RepeatAny', seq(body)))] if body else [])
                 return self.slot_loop(s, env, kinds, tgt, None)
@@ -970,7 +1041,7 @@ class Tr:
                 if isinstance(n, ast.Name):
                     env2[n.id] = NUM()
             self.chosen = set()
-            body = self.block(s.body, env2)
+            body = self.block(s.body, env2, True)
             pre = self.flush(s, [])
             regs = [v.reg for k, v in env2.items() if v is not None and v.kind == 'idx' and getattr(v, 'lazy', False)
                     and (env.get(k) is None or env[k].kind != 'idx')]
@@ -1000,10 +1071,10 @@ class Tr:
         pre = self.flush(s, [])
         if nested:
             # inner loop over the population inside a slot loop: read-only sweep, any number of times
-            body = self.block(s.body, env2)
+            body = self.block(s.body, env2, True)
             return pre + ([self.at(s, ('RepeatAny', seq(body)))] if body else [])
         env2['__in_slots__'] = SV('flag')
-        body = self.block(s.body, env2)
+        body = self.block(s.body, env2, True)
         # numeric locals assigned in the body stay visible
         for k, v in env2.items():
             if k in env and env[k].kind == 'num':
